@@ -924,6 +924,62 @@ func phiBoolConsts(v ssa.Value) (*ssa.Phi, []bool, bool) {
 	return phi, vals, true
 }
 
+// refinePhi: the value a phi must have at a point where `facts` hold. An edge is infeasible when a boolean phi of
+// the same block, whose value is known, has the opposite constant on it, or - for a slice or pointer phi known to be
+// non-empty / non-nil - when the edge is the nil constant. With one feasible edge left the phi is that edge's value.
+func refinePhi(v ssa.Value, facts map[condFact]bool) ssa.Value {
+	for depth := 0; depth < 4; depth++ {
+		ph, ok := strip(v).(*ssa.Phi)
+		if !ok {
+			return v
+		}
+		feasible := make([]bool, len(ph.Edges))
+		for k := range feasible {
+			feasible[k] = true
+		}
+		nonNil := false
+		for f := range facts {
+			switch x := f.Cond.(type) {
+			case *ssa.Phi:
+				if x.Block() == ph.Block() && len(x.Edges) == len(ph.Edges) {
+					for k, e := range x.Edges {
+						if b, isC := constBool(e); isC && b != f.Pol {
+							feasible[k] = false
+						}
+					}
+				}
+			case *ssa.BinOp:
+				// len(phi) != 0, len(phi) > 0, phi != nil
+				if !f.Pol {
+					continue
+				}
+				if call, ok := strip(x.X).(*ssa.Call); ok && isBuiltinCall(call, "len") && strip(call.Call.Args[0]) == ssa.Value(ph) {
+					if n, ok := constInt(x.Y); ok && ((x.Op == token.NEQ && n == 0) || (x.Op == token.GTR && n == 0) || (x.Op == token.GEQ && n == 1)) {
+						nonNil = true
+					}
+				}
+				if x.Op == token.NEQ && strip(x.X) == ssa.Value(ph) && isNilConst(x.Y) {
+					nonNil = true
+				}
+			}
+		}
+		var only ssa.Value
+		n := 0
+		for k, e := range ph.Edges {
+			if !feasible[k] || (nonNil && isNilConst(e)) {
+				continue
+			}
+			n++
+			only = e
+		}
+		if n != 1 {
+			return v
+		}
+		v = only
+	}
+	return v
+}
+
 // ---------------------------------------------------------------------------
 // virtual returns: `return x, ok` where x and ok are phis of the returning block is, per incoming edge, a return of
 // that edge's values under that edge's facts (this is what several `return a, b` statements become after a helper
@@ -941,34 +997,55 @@ func virtualReturns(fn *ssa.Function) []vReturn {
 	var out []vReturn
 	var expand func(vr vReturn, depth int)
 	expand = func(vr vReturn, depth int) {
-		split := false
+		// a result that is a phi of the returning block or of a block dominating it
+		var ph *ssa.Phi
 		if depth < 4 && len(out) < 256 {
 			for _, r := range vr.Results {
-				if ph, ok := r.(*ssa.Phi); ok && ph.Block() == vr.Block {
-					split = true
+				if x, ok := r.(*ssa.Phi); ok && (x.Block() == vr.Block || x.Block().Dominates(vr.Ret.Block())) {
+					ph = x
+					break
 				}
 			}
 		}
-		if !split {
+		if ph == nil {
 			out = append(out, vr)
 			return
 		}
-		for k, pr := range vr.Block.Preds {
+		pb := ph.Block()
+		for k, pr := range pb.Preds {
+			// an edge on which a boolean phi of that block has the value known to be wrong was not taken
+			infeasible := false
+			for f := range vr.Facts {
+				if bp, ok := f.Cond.(*ssa.Phi); ok && bp.Block() == pb && k < len(bp.Edges) {
+					if v, isC := constBool(bp.Edges[k]); isC && v != f.Pol {
+						infeasible = true
+					}
+				}
+			}
+			if infeasible {
+				continue
+			}
 			res := make([]ssa.Value, len(vr.Results))
 			for i, r := range vr.Results {
 				res[i] = r
-				if ph, ok := r.(*ssa.Phi); ok && ph.Block() == vr.Block && k < len(ph.Edges) {
-					res[i] = ph.Edges[k]
+				if x, ok := r.(*ssa.Phi); ok && x.Block() == pb && k < len(x.Edges) {
+					res[i] = x.Edges[k]
 				}
 			}
 			f := map[condFact]bool{}
+			if pb != vr.Block {
+				// the facts at the return still hold: they speak about values
+				for g := range vr.Facts {
+					f[g] = true
+				}
+			}
 			for g := range facts[pr] {
 				f[g] = true
 			}
 			if iff, ok := pr.Instrs[len(pr.Instrs)-1].(*ssa.If); ok && pr.Succs[0] != pr.Succs[1] {
-				if pr.Succs[0] == vr.Block {
+				if pr.Succs[0] == pb {
 					addCondFacts(f, iff.Cond, true)
-				} else if pr.Succs[1] == vr.Block {
+				} else if pr.Succs[1] == pb {
 					addCondFacts(f, iff.Cond, false)
 				}
 			}
